@@ -880,10 +880,10 @@ def run(chk):
         "inner PDU parsers below SNAP are a parameter of the model (instantiated for ARP and unknown ether types)",
     ]
     chk.extra["modelled_not_proved"] = [
-        "the data-frame header parser of the C09 model (parseFrame: Dot11Data / Dot11QoSData fields) is proved to invert the "
-        "header bytes (parse_inverts_header_bytes) but is not proved equal to the wire family's Dot11Data model; RSNEAPOL "
-        "parse / serialize and Dot11Beacon / tagged parameters are (rsneapol_parse_is_wire_model, "
-        "rsneapol_serialize_is_wire_model, beacon_parse_is_wire_model)",
+        "LLC/SNAP parsing below Dot11Data (snapParse) and the PDUs below SNAP (a parameter of the model) are not tied to the "
+        "wire family by theorems; the Dot11Data / Dot11QoSData header, RSNEAPOL parse / serialize and Dot11Beacon / tagged "
+        "parameters are (data_header_parse_is_wire_model, rsneapol_parse_is_wire_model, rsneapol_serialize_is_wire_model, "
+        "beacon_parse_is_wire_model)",
         "AES-128, SHA-1, MD5, HMAC, PBKDF2 themselves: parameters of every theorem; the Lean AES / SHA-1 / MD5 / HMAC run "
         "the driver and the oracle only and are validated against OpenSSL / hashlib on every run",
         "in-place aliasing of the CCMP / RC4 writes (modelled by the bytes written)",
@@ -904,8 +904,9 @@ def run(chk):
         "re-handshakes — with beacons, data frames, other pairs' handshakes and non-handshake EAPOL frames interleaved, from "
         "any capturer state: the capturer hands over exactly the completed attempts and the key-table entry is the session "
         "keys of the last completed attempt that verifies",
-        "rsneapol_parse_is_wire_model, rsneapol_serialize_is_wire_model, beacon_parse_is_wire_model: the parsing models "
-        "under the handshake theorems equal the Wifi wire family's byte-level models on every byte string",
+        "data_header_parse_is_wire_model, rsneapol_parse_is_wire_model, rsneapol_serialize_is_wire_model, "
+        "beacon_parse_is_wire_model: the parsing models under the handshake theorems equal the Wifi wire family's byte-level "
+        "models on every byte string; kdf_source_literals: the literals the translator reads from the source are the model's",
     ]
     chk.extra["known_finding_theorems"] = {
         "KF-C09-4": ["tkip_reject_full (def)", "tkip_reject_full_fails", "tkip_reject_partial"],
